@@ -253,6 +253,7 @@ def main(a):
         else:
             rnd = batch("RUNS", a.seed, 0, 20000)
         parts["random"] = rnd
+        parts["light"] = batch("LIGHT", a.seed, 0, 4000 if not thorough else 400000)
         t_rand = time.time() - t1
 
         # determinism gate: same runs, other processes, one worker
@@ -265,11 +266,11 @@ def main(a):
         if sorted((c["run"], c["sig"]) for c in g["candidates"]) != sorted((c["run"], c["sig"]) for c in rnd["candidates"] if c["run"] < ngate):
             harness_errors.append("candidate set differs between two executions of the first %d random runs" % ngate)
 
-        kinds = {"corpus": "CORPUS", "prefix": pk, "token": tk, "random": "RUNS"}
+        kinds = {"corpus": "CORPUS", "prefix": pk, "token": tk, "random": "RUNS", "light": "LIGHT"}
         cands = []
         for name, part in parts.items():
             for c in part["candidates"]:
-                cands.append(dict(c, kind=kinds[name], seed=a.seed if name == "random" else 0))
+                cands.append(dict(c, kind=kinds[name], seed=a.seed if name in ("random", "light") else 0))
 
         def get_plan(c):
             return orch.dump_plan(l1, "DUMP %s %d %d" % (c["kind"], c["seed"], c["run"]), ENV, args=wargs)
@@ -297,7 +298,7 @@ def main(a):
             return out
 
         def orch_dump_cached(r, i):
-            lines, _ = orch.command(r.w, "DUMP RUNS %d %d" % (a.seed, 1000000 + i))
+            lines, _ = orch.command(r.w, "DUMP %s %d %d" % ("LIGHT" if i % 2 else "RUNS", a.seed, 1000000 + i))
             return [l[3:] for l in lines if l.startswith("OP ")]
 
         with cf.ThreadPoolExecutor(max_workers=nw) as ex:
@@ -354,7 +355,7 @@ def main(a):
                 out = []
                 try:
                     for i in range(k, nvg, nw):
-                        plan = [l[3:] for l in orch.command(r.w, "DUMP RUNS %d %d" % (a.seed, 2000000 + i))[0] if l.startswith("OP ")]
+                        plan = [l[3:] for l in orch.command(r.w, "DUMP %s %d %d" % ("LIGHT" if i % 4 else "RUNS", a.seed, 2000000 + i))[0] if l.startswith("OP ")]
                         res = r.run(plan, binary=plain, wrapper=[shutil.which("valgrind"), "-q", "--error-exitcode=75"], timeout=900)
                         out.append((i, plan, res))
                 finally:
